@@ -156,16 +156,26 @@ class Shape:
             self.text = " ".join(w)
         (self.expr, c, self.variant, sl, ra, rv, rp, self.getter, u, self.fail, self.inherit, self.extras) = w
         assert self.inherit in INHERIT and self.getter in "VSF"
-        assert self.extras == "-" or set(self.extras) <= set("AD"), self.extras
+        assert self.extras == "-" or set(self.extras) <= set("ADSTV"), self.extras
         # A: class-level `_anytrait_changed` listener.  D: dynamic defaults returning shared objects
         # (`_kids_default` -> [self.inst], `_byname_default` -> {'k0': self.inst}, `_inst_default` -> kids[0]) on
         # every pool object: the heap of an untouched object depends on when it is first read - outside the
         # model's vocabulary, implementation + oracle only
         self.any_static = "A" in self.extras
+        # S / T: the property has a setter _set_p(self, value) / _set_p(self, name, value) writing the value to `value`
+        # of the first object the first `...v` path selects (root.aux when no path ends in v); V: Property(Int, ...)
+        self.set_n = 2 if "S" in self.extras else 3 if "T" in self.extras else None
+        self.validated = "V" in self.extras
         self.dyn_defaults = "D" in self.extras
         self.cached, self.static, self.ra, self.rv, self.rp, self.undef = [x == "1" for x in (c, sl, ra, rv, rp, u)]
         self.legacy = self.variant == "l"
         self.paths = parse_expr(self.expr)
+        for links, leaf in self.paths:
+            if leaf == "v":
+                self.set_path = links
+                break
+        else:
+            self.set_path = None
         self.fail_k, self.fail_exc = (None, None)
         if self.fail != "-":
             k, e = self.fail.split(":")
@@ -303,6 +313,19 @@ def h_root_reentrant(h, paths, root=0):
         if root in objs:
             return True
     return False
+
+
+def h_set_target(h, shape, root=0):
+    """(object, slot) the canonical setter writes, or None when the walk finds nothing"""
+    if shape.set_path is None:
+        return (root, "a")
+    o = root
+    for l in shape.set_path:
+        ts = h_targets(h, o, l)
+        if not ts:
+            return None
+        o = ts[0]
+    return (o, "v")
 
 
 def h_copy(h):
@@ -505,6 +528,10 @@ def parse_step(s):
         return (k,) if len(w) == 1 else (k, w[1])
     if k == "rd":
         return (k,)
+    if k == "sp":
+        return ("sp", w[1] if w[1] == "bad" else int(w[1]))
+    if k == "dp":
+        return ("dp",)
     if k == "uh":
         return ("uh", w[1], int(w[2]))
     if k == "uf":
@@ -547,7 +574,12 @@ def rebuild(shape_text, n, steps):
         tgt = None
         if k in ("sv", "si", "sk", "sb", "st", "mk", "mb", "mt"):
             pre = h_copy(h)
-        if k == "sv":
+        if k == "sp":
+            t = h_set_target(h, shape)
+            if shape.set_n is not None and st[1] != "bad" and t is not None:
+                h[t[0]][t[1]] = st[1]
+            out.append("sp %s" % st[1])
+        elif k == "sv":
             h[st[1]][st[2]] = tok_key(st[3])
             out.append("sv %d %s %s" % (st[1], st[2], st[3]))
         elif k == "si":
@@ -865,14 +897,19 @@ def root_class(shape, fv=""):
     from traits.api import Property, Undefined, cached_property
     Node = node_class(fv, shape.dyn_defaults)
     paths = shape.paths
+    from traits.api import Int as _Int
+    targs = (_Int,) if shape.validated else ()
+    # a computed property with a setter is declared transient (otherwise pickling / cloning would push the
+    # getter's value - a string here - back through the setter); one without a setter is transient by itself
+    tkw = {"transient": True} if shape.set_n is not None else {}
     if shape.legacy:
         dep = ",".join(".".join([LEG_LINK[x] for x in p.split(".")[:-1]] + [LEG_LEAF[p.split(".")[-1]]])
                        for p in shape.expr.split("+"))
-        prop = Property(depends_on=dep)
+        prop = Property(*targs, depends_on=dep, **tkw)
     else:
         obs = [".".join([OBS_LINK[x] for x in p.split(".")[:-1]] + [OBS_LEAF[p.split(".")[-1]]])
                for p in shape.expr.split("+")]
-        prop = Property(observe=obs[0] if len(obs) == 1 else obs)
+        prop = Property(*targs, observe=obs[0] if len(obs) == 1 else obs, **tkw)
     view = shape.getter == "V"
     undef = shape.undef
     fail_k = shape.fail_k
@@ -910,12 +947,26 @@ def root_class(shape, fv=""):
 
     def declare(expr_text):
         if shape.legacy:
-            return Property(depends_on=",".join(
+            return Property(*targs, **tkw, depends_on=",".join(
                 ".".join([LEG_LINK[x] for x in p.split(".")[:-1]] + [LEG_LEAF[p.split(".")[-1]]])
                 for p in expr_text.split("+")))
         o = [".".join([OBS_LINK[x] for x in p.split(".")[:-1]] + [OBS_LEAF[p.split(".")[-1]]])
              for p in expr_text.split("+")]
-        return Property(observe=o[0] if len(o) == 1 else o)
+        return Property(*targs, observe=o[0] if len(o) == 1 else o, **tkw)
+
+    set_path = shape.set_path
+
+    def do_set(self, value):
+        if set_path is None:
+            self.aux = value
+            return
+        o = self
+        for l in set_path:
+            ts = r_targets(o, l)
+            if not ts:
+                return
+            o = ts[0]
+        o.value = value
 
     def base_getter(self):          # must never run on an instance of the final class
         return "BASE"
@@ -949,6 +1000,15 @@ def root_class(shape, fv=""):
         def _p_changed(self, old, new):
             _log(self)["static"].append((old, new))
         body["_p_changed"] = _p_changed
+    if shape.set_n == 2:
+        def _set_p(self, value):
+            do_set(self, value)
+        body["_set_p"] = _set_p
+    elif shape.set_n == 3:
+        def _set_p(self, name, value):
+            assert name == "p"
+            do_set(self, value)
+        body["_set_p"] = _set_p
     if shape.any_static:
         def _anytrait_changed(self, name, old, new):
             if name == "p":
@@ -1316,6 +1376,34 @@ def run_impl(case):
             tgt = (st[1], st[2])
         elif k in ("si", "sk", "sb", "st"):
             tgt = (st[1], k[1])
+        if k in ("sp", "dp"):
+            # a set / delete through the property itself.  Statement: a deletion, a value the declared type or the
+            # setter rejects, and a set of a read-only property raise TraitError and change nothing; an accepted
+            # set is the dependency write its setter performs (checked like any other change below)
+            tags.add("set:" + ("delete" if k == "dp" else "bad" if st[1] == "bad" else "value")
+                     + (":readonly" if shape.set_n is None else ":arity%d" % shape.set_n)
+                     + (":validated" if shape.validated else ""))
+            wt = h_set_target(pre, shape)
+            must_fail = k == "dp" or shape.set_n is None or (st[1] == "bad" and (shape.validated or wt is not None))
+            set_exc = None
+            try:
+                if k == "dp":
+                    del root.p
+                else:
+                    root.p = "bad" if st[1] == "bad" else st[1]
+            except Exception as e:
+                set_exc = e
+            if set_exc is not None:
+                read = "!!" + S.exc_name(set_exc)
+            if must_fail != (set_exc is not None) or (set_exc is not None and S.exc_name(set_exc) != "TraitError"):
+                hits.append(_hit("set-outcome:" + ("must-raise" if must_fail else "must-not-raise"),
+                                 "`%s` %s" % (stext, "raised %s" % type(set_exc).__name__ if set_exc else "did not raise"),
+                                 step=stext))
+            if set_exc is None and wt is not None:
+                tgt = wt
+            elif snapshot(R.pool) != pre or (pre_has_cache and CACHE not in root.__dict__):
+                hits.append(_hit("rejected-set-changed-state", "`%s` was rejected / had nothing to write but the "
+                                 "state or the cache changed" % stext, step=stext))
         try:
             if k == "sv":
                 setattr(R.pool[st[1]], SCALAR_NAME[st[2]], R.conv(st[2], st[3], R.pool[st[1]]))
@@ -1625,8 +1713,15 @@ def random_shape(rng, legacy=None, exprs=None):
     text = "%s %d %s %d %d %d %d %s %d %s %s" % (
         expr, cached, "l" if legacy else "o", rng.random() < 0.3, rng.random() < 0.2, rng.random() < 0.2,
         rng.random() < 0.2, getter, undef, fail, inherit)
+    extras = ""
     if rng.random() < 0.12:
-        text += " A"          # class-level _anytrait_changed
+        extras += "A"         # class-level _anytrait_changed
+    if rng.random() < 0.3:
+        extras += rng.choice("SST")     # a setter of arity 2 / 3
+    if rng.random() < 0.1:
+        extras += "V"         # Property(Int, ...)
+    if extras:
+        text += " " + extras
     return text
 
 
@@ -1828,6 +1923,10 @@ def random_history(rng, legacy=None, maxsteps=15, allow_self=0.06, tree=None, ex
         return [pick_target(o) for _ in range(rng.randint(lo, hi))]
 
     def mutation():
+        if rng.random() < (0.12 if shape.set_n is not None else 0.015):
+            # through the property's own setter (a read-only property, a rejected value and `del` raise)
+            r = rng.random()
+            return ("dp",) if r < 0.08 else ("sp", "bad") if r < 0.2 else ("sp", rng.randint(0, 9))
         reach = reachable(h, shape.paths)
         o = rng.choice(reach) if rng.random() < 0.75 else rng.randrange(n)
         slot = rng.choice(rel_slots) if rng.random() < 0.75 else rng.choice(ALL_SLOTS)
@@ -1936,6 +2035,10 @@ def random_history(rng, legacy=None, maxsteps=15, allow_self=0.06, tree=None, ex
                 h[0] = blank_obj()
                 for w in st[1]:
                     sh_write(h[0], w)
+            elif k == "sp":
+                t = h_set_target(h, shape)
+                if shape.set_n is not None and st[1] != "bad" and t is not None:
+                    h[t[0]][t[1]] = st[1]
         except (IndexError, ValueError, KeyError):
             pass
 
@@ -2211,6 +2314,14 @@ def corpus():
         "i.v 1 o 0 0 0 0 S 0 - -|3|at t;si 0 1;sv 1 v 4;dt t;sv 1 v 5;at o;sv 1 v 6;rd;cp p;at n;sv 1 v 7",
         "k.v 1 o 0 0 0 0 V 0 - - A|3|sk 0 [1];sv 1 v 3;rd;sv 1 v 4;cp c;sv 1 v 5;rd",
         "v 0 o 0 0 0 0 F 0 - bc A|2|sv 0 v 3;at n;sv 0 v 4;dt n;sv 0 v 5",
+        # set through the property's own setter (arity 2 / 3, validated or not), read-only property, rejected
+        # value, deletion: the setter's dependency write invalidates and announces like any other change
+        "i.v 1 o 1 0 0 0 V 0 - - S|3|si 0 1;rd;sp 5;rd;sp 5;rd;sp bad;rd;dp;rd;si 0 N;sp 7;rd",
+        "k.v+v 1 o 0 0 0 0 S 0 - - TV|3|sk 0 [1,2];at;rd;sp 4;rd;sp bad;rd;cp p;sp 6;rd;dp",
+        "v 1 o 1 0 1 0 V 0 - - SA|2|rd;sp 3;rd;sp 3;rd",
+        "B 0 o 0 0 0 0 V 0 - - S|3|at n;sp 2;rd;sp 2;sp 3",
+        "v 1 o 1 0 0 0 V 0 - - V|2|rd;sp 3;rd;sp bad;dp;rd",
+        "b.v 1 l 1 0 0 0 V 0 - bu T|3|sb 0 {1:2};rd;sp 8;rd",
         # dynamic defaults returning shared objects (impl + oracle only): kids assigned before its default
         # [self.inst] was ever read - the old value handed to the maintainer is an un-hooked list holding an object
         # that is hooked through the other path
